@@ -10,7 +10,11 @@ require (
 
 require (
 	github.com/google/btree v1.1.3 // indirect
+	golang.org/x/net v0.26.0 // indirect
 	golang.org/x/sys v0.30.0 // indirect
+	golang.org/x/text v0.22.0 // indirect
+	google.golang.org/genproto/googleapis/rpc v0.0.0-20240610135401-a8a62080eff3 // indirect
+	google.golang.org/grpc v1.64.1 // indirect
 )
 
 replace github.com/enfein/mieru/v3 => /repo
